@@ -394,3 +394,20 @@ func mavenBelowZero(v string) bool {
 	}
 	return false
 }
+
+// BothPrerelease wraps a range generator: one range in twelve is a pair of
+// bounds that both carry a prerelease tag, on different x.y.z tuples
+// (>=1.0.0-alpha <2.0.0-beta). Each of the two tuples then admits its own
+// prereleases, which a rule looking at one bound only gets wrong.
+func BothPrerelease(g func(*rand.Rand) string, sep string) func(*rand.Rand) string {
+	return func(r *rand.Rand) string {
+		s := g(r)
+		if r.Intn(12) != 0 {
+			return s
+		}
+		lo := fmt.Sprintf("%d.%d.%d", r.Intn(3), r.Intn(3), r.Intn(3))
+		hi := fmt.Sprintf("%d.%d.%d", 1+r.Intn(3), r.Intn(3), r.Intn(3))
+		pre := func() string { return Pick(r, "alpha", "beta", "rc.1", "rc", "b.2", "zz") }
+		return Pick(r, ">=", ">") + lo + "-" + pre() + sep + Pick(r, "<", "<=") + hi + "-" + pre()
+	}
+}
